@@ -11,6 +11,7 @@ import (
 	"runtime"
 	"unsafe"
 
+	"github.com/tuneinsight/lattigo/v6/core/rlwe"
 	"github.com/tuneinsight/lattigo/v6/utils/buffer"
 
 	"verifsim/core"
@@ -437,10 +438,15 @@ func (p c08) readPhase(ctx *core.RunCtx, g *c08Gen, e *c08Entry, v ser, data []b
 				ctx.Count("probe.bufio-size-not-multiple-of-8", 1)
 			}
 		}
+		by, byHash := metadataBystander(underlying(recv))
 		res := readVia(kind, recv, rd, bufSize, data, false)
 		dn := "fresh"
 		if dirty {
 			dn = "dirty"
+		}
+		if by != nil && bystanderHash(by) != byHash {
+			ctx.Fail("read", e.Name+"|"+rdNames[kind]+"|"+dn+"|bystander-modified", "decoding into a %s receiver changed another object: a metadata value that had been copied by assignment from the receiver's metadata before the call", dn)
+			return
 		}
 		ctx.Event("read %s %s recv=%s sched=%s buf=%d -> n=%d err=%v", e.Name, rdNames[kind], dn, sched, bufSize, res.n, res.err)
 		ctx.Nontrivial = ctx.Nontrivial || dirty || sched != "whole" && sched != "n/a"
@@ -840,7 +846,12 @@ func (p c08) jsonPhase(ctx *core.RunCtx, g *c08Gen, e *c08Entry, v ser) {
 			recv = e.New()
 		}
 		ru := underlying(recv)
+		by, byHash := metadataBystander(ru)
 		r := guarded(false, func() (int64, error) { return 0, json.Unmarshal(js, ru) })
+		if by != nil && bystanderHash(by) != byHash {
+			ctx.Fail("json", cls+"|"+dn+"|bystander-modified", "json.Unmarshal into a %s receiver changed another object: a metadata value that had been copied (by assignment, as the library's operations do) from the receiver's metadata before the call", dn)
+			return
+		}
 		if r.panicked || r.err != nil {
 			ctx.Fail("json", cls+"|"+dn+"|unmarshal", "json.Unmarshal of the object's own JSON into a %s receiver failed: panic=%v %s err=%v", dn, r.panicked, r.msg, r.err)
 			return
@@ -904,4 +915,33 @@ func shrinkRows(v reflect.Value, rows int, depth int) int {
 		}
 	}
 	return n
+}
+
+// metadataBystander returns a value copy of the metadata of x (if x has one) and its hash: the copy shares
+// its big numbers' storage with the receiver's, as every `*out.MetaData = *in.MetaData` in the library does.
+func metadataBystander(x any) (*rlwe.MetaData, uint64) {
+	var md *rlwe.MetaData
+	if m, ok := x.(*rlwe.MetaData); ok {
+		md = m
+	} else {
+		v := reflect.ValueOf(x)
+		if v.Kind() == reflect.Ptr && !v.IsNil() && v.Elem().Kind() == reflect.Struct {
+			if f := v.Elem().FieldByName("MetaData"); f.IsValid() && f.Kind() == reflect.Ptr && !f.IsNil() && f.CanInterface() {
+				md, _ = f.Interface().(*rlwe.MetaData)
+			}
+		}
+	}
+	if md == nil {
+		return nil, 0
+	}
+	by := *md
+	return &by, bystanderHash(&by)
+}
+
+func bystanderHash(m *rlwe.MetaData) uint64 {
+	h := core.HashString(m.Scale.Value.Text('p', 0))
+	if m.Scale.Mod != nil {
+		h = core.SplitMix64(h ^ core.HashString(m.Scale.Mod.Text(16)))
+	}
+	return core.SplitMix64(h ^ uint64(m.LogDimensions.Rows)<<8 ^ uint64(m.LogDimensions.Cols))
 }
